@@ -76,6 +76,9 @@ class Model:
         return outcome
 
 
+_tx = [5000]
+
+
 def _fresh(case, d, name):
     kind = {"fs": "fs", "fsc": "fs", "mem": "memory"}[case["backend"]]
     st = env.make_backend(kind, os.path.join(d, name), cache_mb=0.05 if case["backend"] == "fsc" else None)
@@ -218,6 +221,58 @@ def execute(case, scratch):
                                 tname, variant, bad[0]["fn"], bad[0]["arg"], bad[0]["outcome"]), symptom="prevented-call-not-refused", store=variant, edge="inner")
             trees.begin(prog, files)
             out.labels.append("prevent-on-inner-edge")
+        # an unrelated top-level call made by another thread while a body that runs under context arguments (and, second
+        # variant, with further calls prevented) is suspended: it has no caller, so it inherits nothing and is not refused
+        if not out.violations:
+            import copy
+            import threading
+            p3 = copy.deepcopy(prog)
+            p3["nodes"]["t0"] = [{"a": "pause"}] + p3["nodes"].get("t0", [])
+            vctx = c1 if c1 else {"tenant": "a"}
+            for prevent in (False, True):
+                _fresh(case, d, "visitor-%d" % prevent)
+                trees.begin(p3, files)
+                reached, resume, fired = threading.Event(), threading.Event(), [False]
+
+                def hook():
+                    if not fired[0]:
+                        fired[0] = True
+                        reached.set()
+                        resume.wait(60)
+                trees.STATE["pause_hook"] = hook
+                th = threading.Thread(target=_run_root, args=(vctx, x, prevent))
+                th.start()
+                got = None
+                try:
+                    while th.is_alive() and not reached.wait(0.005):
+                        pass
+                    if reached.is_set():
+                        _tx[0] += 1
+                        try:
+                            got = ("ok", trees.tx(_tx[0]))
+                        except Exception as e:
+                            got = ("exc", e)
+                finally:
+                    resume.set()
+                    th.join()
+                    trees.STATE["pause_hook"] = None
+                trees.take_trace()
+                if got is None:
+                    continue
+                out.labels.append("unrelated-call-from-other-thread-during-body")
+                if got != ("ok", _tx[0]):
+                    out.violation("a top-level call made by another thread while t0 ran under %r%s gave %r" % (
+                        vctx, " with further calls prevented" if prevent else "", got), symptom="other-thread-call-affected", prevent=prevent)
+                    break
+                mem_plain = trees.tx.memento(_tx[0])
+                mem_ctx = trees.tx.with_context_args(dict(vctx)).memento(_tx[0])
+                held = None if mem_plain is None else dict(mem_plain.invocation_metadata.fn_reference_with_args.context_args or {})
+                if mem_plain is None or held or mem_ctx is not None:
+                    out.violation("a top-level call without context arguments made by another thread while t0 ran under %r is stored %s" % (
+                        vctx, "under that context" if mem_ctx is not None else ("with context %r" % (held,) if held else "nowhere")),
+                        symptom="other-thread-call-inherited-context")
+                    break
+            trees.begin(prog, files)
         overrides_below = _has_override_below_inherited(prog, c1) or _has_override_below_inherited(prog, c2)
         shared = _norm(c1) != _norm(c2) and len(model.store) > 2
         out.nontrivial = overrides_below or shared
